@@ -108,6 +108,12 @@ check("C20", "exploration", "simkernel+realproc",
       "Trusted: the sandbox runs as root with users www-data/nobody and groups nogroup/daemon present; without initgroups supplementary groups are not judged; preload_app is outside the property; real-process anomalies count only if they reproduce serially.",
       "DESIGN.md section 3, C20")
 
+check("C14", "exploration", "simkernel+realproc",
+      "exhaustive enumeration of upgrade/rollback histories: (a) real Arbiter in the simulated kernel, one master at a time against every environment answer of the other side (old master: all histories with a USR2 over 12 events to depth 3/4; new master started with the inherited GUNICORN_PID/GUNICORN_FD and the parent's pid file: all histories over 9 events), short histories with mid-flight events at every delivery point, plus the real re-exec child branch up to execvpe; (b) all valid histories of length <=3/4 over {USR2 old, TERM/QUIT new, TERM/QUIT old, HUP old, USR2 new} on real masters, TCP and unix binds, under a background client",
+      "(a) ~4900 histories / ~13k runs: a second USR2 while an upgrade is pending never forks another master, the old master tracks the new one and notices its exit (also with zero workers after WINCH in daemon mode and after a HUP), nobody closes a listener while running, a master that stops while the other lives does not unlink the unix socket path and a sole master does, the new master adopts exactly the inherited fds, writes <pidfile>.2, leaves the parent's pid file alone, ignores USR2 while the parent lives, promotes itself and moves its pid to the configured name once the parent is gone (orderly exit or kill), the exec environment carries GUNICORN_PID and GUNICORN_FD. (b) 51 (thorough ~230) real runs check the same end states on real masters and that a client connecting every 10 ms is never refused while a master lives.",
+      "Trusted: vlib/simkernel.py; the two masters are not interleaved by an explorer (level therefore 'exploration', as announced in DESIGN.md's fallback), their concurrent execution is covered by the real histories; two known findings (new master dying inside the fork/bookkeeping window of reexec) are listed.",
+      "DESIGN.md section 3, C14")
+
 ALL = ["C%02d" % i for i in range(1, 21)]
 for pid in ALL:
     if pid not in CHECKS:
